@@ -82,6 +82,22 @@ def _toy_opt(r):
     if r["loss"] == "map":
         loss = "joint"
         params = ["x", "z"]
+    elif r["loss"] == "flow":
+        # ADVI with a normalizing flow of planar layers: the optimised parameters are the weights of
+        # torch modules (torch.nn.Parameter tensors inside torchtree Parameters)
+        def planar(i):
+            return {"id": "planar.%d" % i, "type": "torchtree.nn.Module", "module": "torchtree.nf.planar.PlanarTransform",
+                    "parameters": {"u": scenes.param("flow.u.%d" % i, [[0.1 * (i + 1), -0.05]], dt, True),
+                                   "w": scenes.param("flow.w.%d" % i, [[0.07, 0.02 * (i + 1)]], dt, True),
+                                   "b": scenes.param("flow.b.%d" % i, [0.03 * i], dt, True)}}
+
+        spec = [{"id": "joint", "type": "torchtree.nf.energy_functions.EnergyFunctionModel", "x": {"id": "z", "type": "Parameter", "zeros": [4, 2]}, "function": "u_z1"}]
+        loss = {"id": "elbo", "type": "ELBO", "samples": [4], "joint": "joint",
+                "variational": {"id": "varmodel", "type": "torchtree.nf.flow.NormalizingFlow", "x": "z", "layers": [planar(0), planar(1)],
+                                "base": {"id": "base", "type": "torchtree.distributions.MultivariateNormal",
+                                         "parameters": {"loc": scenes.param("base.loc", [0.0, 0.0]), "covariance_matrix": scenes.param("base.scale", [[1.0, 0.0], [0.0, 1.0]])},
+                                         "x": scenes.param("flow.z", [0.0, 0.0])}}}
+        params = ["flow.u.0", "flow.w.0", "flow.b.0", "flow.u.1", "flow.w.1", "flow.b.1"]
     else:
         dim = r.get("dim", 3)
         q = scenes.joint(
